@@ -110,7 +110,7 @@ def extra_evidence(executed, model_outs):
 
 def budget(tier):
     b = {'quick': dict(seconds=60, cases=400, shrink_s=20, search_s=0),
-         'thorough': dict(seconds=420, cases=9600, shrink_s=60, search_s=0)}[tier]
+         'thorough': dict(seconds=420, cases=8000, shrink_s=60, search_s=0)}[tier]
     _PLANNED['cases'] = b['cases']
     return b
 
@@ -275,6 +275,10 @@ def err_site(e):
 # the real objects of one case
 # --------------------------------------------------------------------------
 
+class EndCase(Exception):
+    """the real objects cannot be driven any further in a meaningful way: the case ends here, silently"""
+
+
 class ChemSet:
     def __init__(self, recipe):
         self.recipe = recipe           # list of recipe tokens
@@ -321,12 +325,12 @@ class ChemSet:
                     if n and n not in tab and sum(1 for s2 in self.specs if n in s2[2]) == 1: tab[n] = k
             for d in self.defs:
                 if d[0] == 'alias':
-                    if d[2] not in tab: tab[d[2]] = tab[d[1]]
+                    if d[2] not in tab and d[1] in tab: tab[d[2]] = tab[d[1]]
                 elif d[0] == 'alias-failed':
                     # set_alias(<group name>, new) enters `new` as a second name of the group before it raises
                     if isinstance(tab.get(d[1]), list) and d[2] not in tab and d[2] not in RESERVED: tab[d[2]] = tab[d[1]]
                 else:
-                    tab[d[1]] = [tab[i] for i in d[2]]
+                    if all(i in tab for i in d[2]): tab[d[1]] = [tab[i] for i in d[2]]
             self._table = tab
         return self._table
 
@@ -582,6 +586,109 @@ class Universe:
             self.ixs.append((ind.ChemicalMolarFlowIndexer.blank(ph, self.sets[s].real), s)); self.version.append(0)
             return line, 'ok'
 
+        if op == 'reset':
+            n, c2 = int(t[1]), int(t[2])
+            ix, s = self.ixs[n]; old, new = self.sets[s], self.sets[c2]
+            before, labels0 = dense(ix), self.labels(ix)
+            tab = new.table()
+            valid = all(old.specs[j][1] in tab for row in before for j, x in enumerate(row) if x)
+            try:
+                ix.reset_chemicals(new.real)
+            except Exception as e:
+                self.tags.add('reset:err:' + err_name(e))
+                if valid: fail(f'reset:raises-{err_name(e)}@{err_site(e)}', f'all chemicals present, raised {type(e).__name__}: {str(e)[:80]}')
+                raise EndCase()          # the indexer is left half-converted: the case ends here
+            self.ixs[n] = (ix, c2); self.version[n] += 1
+            if n in self.inexact: pass
+            after = dense(ix)
+            want = [[Fraction(0)] * len(new.specs) for _ in before]
+            for p_, row in enumerate(before):
+                for j, x in enumerate(row):
+                    if x: want[p_][tab[old.specs[j][1]]] = Fraction(x)
+            self.tags.add('reset:' + ('multi' if isinstance(ix, ind.MaterialIndexer) else 'single') + (':same-set' if s == c2 else ''))
+            if [[Fraction(x) for x in r] for r in after] != want or self.labels(ix) != labels0:
+                fail('reset:mismatch', f'data {after} after reset_chemicals; CAS by CAS it should be {[[float(x) for x in r] for r in want]}')
+            return line, ('~' if n in self.inexact else '') + f'ok {"".join(self.labels(ix))} ' + show_dense(after)
+
+        if op == 'copyix':
+            n = int(t[1]); ix, s = self.ixs[n]
+            new = ix.copy()
+            self.ixs.append((new, s)); self.version.append(0)
+            if n in self.inexact: self.inexact.add(len(self.ixs) - 1)
+            self.tags.add('copyix')
+            if dense(new) != dense(ix) or self.labels(new) != self.labels(ix):
+                fail('copyix:mismatch', f'copy has {self.labels(new)} {dense(new)}, the original {self.labels(ix)} {dense(ix)}')
+            return line, ('~' if n in self.inexact else '') + f'ok {"".join(self.labels(new))} ' + show_dense(dense(new))
+
+        if op == 'getindex':
+            cs = self.sets[int(t[1])]
+            key = parse_key(t[2])
+            mline = f'getindex {t[1]} {model_key(key)}'
+            valid = isinstance(key, (tuple, list)) and all(self.pos_of(cs, k) is not None for k in key)
+            try:
+                v = cs.real.get_index(key)
+            except Exception as e:
+                self.tags.add('getindex:err:' + err_name(e))
+                if valid: fail(f'getindex:raises-{err_name(e)}@{err_site(e)}', f'all names defined, raised {type(e).__name__}')
+                return mline, 'err=' + err_name(e)
+            self.tags.add('getindex:ok')
+            if isinstance(key, str): return mline, 'ok ' + ((','.join(map(str, v)) or '-') if isinstance(v, list) else str(v))
+            if key is Ellipsis: return mline, 'ok'
+            want = [self.pos_of(cs, k) for k in key]
+            if not valid:
+                fail('getindex:accepts-undefined', f'get_index({t[2]}) returned {v} although a name is undefined')
+            elif [list(x) if isinstance(x, list) else x for x in v] != want:
+                fail('getindex:mismatch', f'get_index({t[2]}) gave {v}; the positions of the names are {want}')
+            return mline, 'ok ' + (';'.join((','.join(map(str, x)) or '-') if isinstance(x, list) else str(x) for x in v) if v else '-')
+
+        if op in ('kcix', 'ksix', 'kmix'):
+            cs = self.sets[int(t[1])]
+            try:
+                if op == 'kmix':
+                    parts = [p_.split('=') for p_ in t[2].split('|')]
+                    kw = {}
+                    for pk, d in parts:
+                        ph, ids = parse_key(pk)
+                        kw[ph] = list(zip(ids, parse_data(d)))
+                    new = ind.MolarFlowIndexer(chemicals=cs.real, **kw)
+                    writes = [(parse_key(pk), parse_data(d)) for pk, d in parts]
+                elif op == 'kcix':
+                    key, data = parse_key(t[3]), parse_data(t[4])
+                    new = ind.ChemicalMolarFlowIndexer(t[2], chemicals=cs.real, **dict(zip(key, data)))
+                    writes = [(key, data)]
+                else:
+                    key, data = parse_key(t[2]), parse_data(t[3])
+                    new = ind.SplitIndexer(chemicals=cs.real, **dict(zip(key, data)))
+                    writes = [(key, data)]
+            except Exception as e:
+                self.tags.add(op + ':err:' + err_name(e))
+                return line, 'err=' + err_name(e)
+            self.ixs.append((new, int(t[1]))); self.version.append(0)
+            n = len(self.ixs) - 1
+            wt_groups = {d[1] for d in cs.defs if d[0] == 'group' and d[4]}
+            if wt_groups and any(g_ in line for g_ in map(enc, wt_groups)): self.inexact.add(n)
+            self.tags.add(op + ':ok')
+            # the entries must be what the name-keyed writes say, on an otherwise empty indexer
+            rows = dense(new)
+            zero = [[0.0] * len(r) for r in rows]
+            want = {}
+            ok = True
+            for key, data in writes:
+                plan = self._write_plan(n, key, data, zero, 'mol')
+                if plan is None: ok = False; break
+                want.update(plan[1])
+            if ok:
+                for r, row in enumerate(rows):
+                    for j, x in enumerate(row):
+                        w_ = want.get((r, j), 0)
+                        if Fraction(x) != w_ and not (n in self.inexact and abs(x - float(w_)) <= 1e-12 + 1e-9 * abs(x)):
+                            fail(f'{op}:mismatch', f'constructed {self.labels(new)} {rows}; entry [{r},{j}] should be {float(want.get((r, j), 0))}')
+                            ok = False; break
+                    if not ok: break
+            else:
+                self.tags.add(op + ':unjudged')
+            return line, ('~' if n in self.inexact else '') + f'ok {"".join(self.labels(new))} ' + show_dense(rows)
+
         if op == 'six':
             s = int(t[1])
             self.ixs.append((ind.SplitIndexer.blank(self.sets[s].real), s)); self.version.append(0)
@@ -635,7 +742,14 @@ class Universe:
             mark = '~' if (mass or n in self.inexact) else ''
             same = close_line if mark else (lambda a, b: a == b)
             try:
-                v = (ix.by_mass() if mass else ix)[rkey]
+                tgt = ix.by_mass() if mass else ix
+                if i % 5 == 2 and not isinstance(ix, ind.SplitIndexer):
+                    # the same read through Indexer.get_data (conversion factor 1)
+                    units = 'kg/hr' if mass else 'kmol/hr'
+                    v = tgt.get_data(units, *rkey) if (isinstance(rkey, tuple) and len(rkey) >= 2) else tgt.get_data(units, rkey)
+                    self.tags.add('route:get_data')
+                else:
+                    v = tgt[rkey]
             except Exception as e:
                 self.note_cache(ix)
                 self.tags.add(op + ':err:' + err_name(e))
@@ -689,7 +803,14 @@ class Universe:
             if mass or (wt_groups and any(g_ in t[2] for g_ in map(enc, wt_groups))): self.inexact.add(n)
             mark = '~' if n in self.inexact else ''
             try:
-                (ix.by_mass() if mass else ix)[rkey] = arg
+                tgt = ix.by_mass() if mass else ix
+                if i % 5 == 2 and not isinstance(ix, ind.SplitIndexer) and not isinstance(arg, list) and sparse_arg is None:
+                    units = 'kg/hr' if mass else 'kmol/hr'
+                    if isinstance(rkey, tuple) and len(rkey) >= 2: tgt.set_data(arg, units, *rkey)
+                    else: tgt.set_data(arg, units, rkey)
+                    self.tags.add('route:set_data')
+                else:
+                    tgt[rkey] = arg
             except Exception as e:
                 self.note_cache(ix)
                 self.tags.add(op + ':err:' + err_name(e))
@@ -796,6 +917,7 @@ class Universe:
 
     @staticmethod
     def labels(ix):
+        if isinstance(ix, ind.SplitIndexer): return ('l',)          # no phase: the model prints its placeholder
         return tuple(ix.phases) if isinstance(ix, ind.MaterialIndexer) else (ix.phase,)
 
     def chems_line(self, cs):
@@ -1019,6 +1141,8 @@ def run_ops(ops):
     for i, line in enumerate(ops):
         try:
             mi, o = U.apply(line, i, failures)
+        except EndCase:
+            break
         except Exception as e:
             # observing the real objects through their public API raised: the objects are broken
             failures.append({'signature': f'{line.split(" ")[0]}:observation-raises-{type(e).__name__}@{err_site(e)}',
@@ -1117,7 +1241,8 @@ class Gen:
     def accepted(self, s):
         cs = self.U.sets[s]
         idx = cs.real._index          # generator only: which names exist (never used by the oracle)
-        return [k for k, v in idx.items() if isinstance(v, int)], [k for k, v in idx.items() if not isinstance(v, int)]
+        return (sorted(k for k, v in idx.items() if isinstance(v, int)),
+                sorted(k for k, v in idx.items() if not isinstance(v, int)))      # sorted: independent of the hash seed
 
     def define_some(self, s, n_alias, n_group):
         rng = self.rng
@@ -1322,23 +1447,83 @@ class Gen:
         n = rng.choice(cands)
         ix = self.U.ixs[n][0]
         x = dy(rng, 0.05)
+        m = 'm' if (rng.random() < 0.25 and not isinstance(ix, ind.SplitIndexer)) else ''
         if isinstance(ix, ind.MaterialIndexer):
-            p = rng.choice(ix.phases)
-            self.do(f'set {n} ({p},{enc(grp)}) {show_data(x)}')
-            self.do(f'get {n} ({p},{enc(grp)})')
+            p = rng.choice(list(ix.phases) + ['*'])
+            if p == '*' and rng.random() < 0.4: x = [[dy(rng, 0.05) for _ in (self.U.pos_of(self.U.sets[s], grp) or [])] for _ in ix.phases]
+            if p == '*' and isinstance(x, list) and (not x or not x[0]): x = dy(rng, 0.05)
+            self.do(f'set{m} {n} ({p},{enc(grp)}) {show_data(x)}')
+            self.do(f'get{m} {n} ({p},{enc(grp)})')
         else:
-            self.do(f'set {n} {enc(grp)} {show_data(x)}')
-            self.do(f'get {n} {enc(grp)}')
+            self.do(f'set{m} {n} {enc(grp)} {show_data(x)}')
+            self.do(f'get{m} {n} {enc(grp)}')
 
     def rw(self, n, bad=0.04, pset=0.3):
         rng = self.rng
         key = self.key(n, bad)
-        m = 'm' if (rng.random() < 0.1 and not isinstance(self.U.ixs[n][0], ind.SplitIndexer)) else ''
+        m = 'm' if (rng.random() < 0.14 and not isinstance(self.U.ixs[n][0], ind.SplitIndexer)) else ''
         if rng.random() < pset:
             self.do(f'set{m} {n} {show_key(key)} {self.data_for(n, key, bool(m))}')
             if rng.random() < 0.7: self.do(f'get{m if rng.random() < 0.7 else ""} {n} {show_key(key)}')
         else:
             self.do(f'get{m} {n} {show_key(key)}')
+
+    def reset_op(self, n=None):
+        """reset_chemicals to another chemicals object that has every chemical the indexer carries; the keys looked up
+        before are looked up again afterwards (the indexer must now use the memo of the new object)"""
+        rng = self.rng
+        ixs = self.U.ixs
+        cands = [j for j, (ix, _) in enumerate(ixs) if not isinstance(ix, ind.SplitIndexer)]
+        if not cands: return
+        n = rng.choice(cands) if n is None else n
+        ix, s = ixs[n]
+        old = self.U.sets[s]
+        rows = dense(ix)
+        need = {old.specs[j][1] for row in rows for j, x in enumerate(row) if x}
+        targets = [c for c, cs in enumerate(self.U.sets) if cs.real is not None and need <= {sp[1] for sp in cs.specs}]
+        others = [c for c in targets if c != s]
+        if not targets: return
+        c2 = rng.choice(others) if (others and rng.random() < 0.85) else rng.choice(targets)
+        keys = [self.key(n, 0.0) for _ in range(rng.randrange(1, 4))]
+        for k in keys: self.do(f'get {n} {show_key(k)}')
+        self.do(f'reset {n} {c2}')
+        for k in keys: self.do(f'get {n} {show_key(k)}')
+        self.do(f'get {n} {show_key(self.key(n, 0.0))}')
+
+    def ctor_op(self, s):
+        """keyword constructors ChemicalIndexer(phase, **ID_data), SplitIndexer(**ID_data), MaterialIndexer(**phase_data)"""
+        rng = self.rng
+        names, groups = self.accepted(s)
+        def ids(kmax=4, with_groups=False):
+            pool = names + (groups if with_groups else [])
+            pool = [x for x in pool if x not in ('phase', 'units', 'chemicals', 'phases', 'cls')]
+            return tuple(rng.sample(pool, min(len(pool), rng.randrange(1, kmax + 1))))
+        r = rng.random()
+        if r < 0.4:
+            k = ids(with_groups=rng.random() < 0.3)
+            self.do(f'kcix {s} {rng.choice(VALID_PHASES)} {show_key(k)} {show_data([dy(rng) for _ in k])}')
+        elif r < 0.6:
+            k = ids(with_groups=rng.random() < 0.4)
+            self.do(f'ksix {s} {show_key(k)} {show_data([dy(rng, 0.05) for _ in k])}')
+        else:
+            phs = rng.sample(VALID_PHASES, rng.randrange(1, 4))
+            parts = []
+            for p_ in phs:
+                k = ids(with_groups=rng.random() < 0.2)
+                parts.append(f'{show_key((p_, k))}={show_data([dy(rng) for _ in k])}')
+            self.do(f'kmix {s} ' + '|'.join(parts))
+        n = len(self.U.ixs) - 1
+        if n >= 0 and rng.random() < 0.7: self.rw(n, 0.0, 0.2)
+
+    def getindex_op(self, s):
+        rng = self.rng
+        k = rng.choice([0, 1, 2, 2, 3, 4])
+        seq = [self.name(s, 0.06) for _ in range(k)]
+        r = rng.random()
+        if r < 0.05 and seq: seq[rng.randrange(k)] = rng.choice([('Water',), ['Water'], Ellipsis])
+        key = tuple(seq) if rng.random() < 0.6 else seq
+        if r > 0.92: key = self.name(s, 0.1)
+        self.do(f'getindex {s} {show_key(key)}')
 
     def array_op(self, s):
         """chemicals.array / kwarray / split / kwsplit / iarray / ikwarray / isplit: name-keyed construction"""
@@ -1393,7 +1578,13 @@ def gen_small(g, rng):
         elif r < 0.12: g.group_scalar(s, nix)
         elif r < 0.17: g.transfer()
         elif r < 0.21: g.array_op(s)
-        else: g.rw(rng.randrange(nix))
+        elif r < 0.24: g.ctor_op(s)
+        elif r < 0.27: g.getindex_op(s)
+        elif r < 0.29:
+            flows = [j for j, (ix_, _) in enumerate(g.U.ixs) if not isinstance(ix_, ind.SplitIndexer)]     # SplitIndexer.copy() raises AttributeError
+            if flows: g.do(f'copyix {rng.choice(flows)}')
+        elif r < 0.31: g.reset_op()
+        else: g.rw(rng.randrange(len(g.U.ixs)))
 
 
 @stoppable
@@ -1495,6 +1686,9 @@ def gen_twins(g, rng):
         if rng.random() < 0.08:
             s = rng.choice(sets)
             g.group(s, name=rng.choice(gnames)) if GEN_REDEFINE_GROUPS else None
+    # an indexer moves to the twin package: from now on it must answer with the twin's names
+    for _ in range(rng.randrange(0, 3)):
+        g.reset_op(rng.choice([ixs[s][0] for s in sets] + [ixs[s][1] for s in sets]))
 
 
 @stoppable
@@ -1519,7 +1713,8 @@ def gen_cross(g, rng):
             g.transfer(cross=0.8)
             for n_, (ix_, _) in enumerate(g.U.ixs):
                 if isinstance(ix_, ind.MaterialIndexer) and rng.random() < 0.5: g.phase_probe(n_)
-        elif r < 0.5: g.transfer(cross=0.7)
+        elif r < 0.42: g.transfer(cross=0.7)
+        elif r < 0.5: g.reset_op()
         elif r < 0.75:
             # the CAS tuple that index_overlap memoises, as a user key
             ix, s = g.U.ixs[l]
@@ -1691,6 +1886,15 @@ def corpus():
               'set 2 (*,*) m:1,0,2;0,3,0', 'get 2 [l,[Water,Methanol]]', 'get 0 [Water,Methanol]', 'iarray 0 (Methanol,Water) v:1,2',
               'iarray 0 [Water,Ethanol] v:3,4', 'isplit 0 (Methanol,Water) v:1/2,1/4', 'isplit 0 [Water,Ethanol] v:1/2,1', 'isplit 0 (Water) s:1/4'],
              {'kind': 'corpus-values'}))
+    cases.append(
+        # 16. reset_chemicals to a permuted package (memoised keys re-read), copy(), keyword constructors, get_index,
+        #     reads / writes through get_data / set_data (ops 2, 7, 12, ... of a case take that route)
+        Case([W, 'chems Ethanol Water', 'mix 0 lg', 'set 2 l v:1,2,0'.replace('set 2', 'set 0'), 'get 0 (l,Water)', 'get 0 (l,(Water,Ethanol))',
+              'get 0 Water', 'get 0 (g,Ethanol)', 'reset 0 1', 'get 0 (l,Water)', 'get 0 (l,(Water,Ethanol))', 'get 0 Water', 'get 0 (l,(Water))',
+              'copyix 0', 'get 1 (l,Water)', 'set 1 (l,Water) s:8', 'get 0 l', 'cix 0', 'set 2 * v:1,2,4', 'get 2 Ethanol', 'reset 2 0', 'reset 0 0',
+              'get 0 (l,Ethanol)', 'kcix 0 l (Ethanol,Water) v:2,1', 'get 3 Water', 'kmix 0 (l,(Water,Ethanol))=v:1,2|(g,(Methanol))=v:4',
+              'get 4 (l,(Water,Ethanol))', 'ksix 0 (Methanol,Water) v:1/2,1/4', 'get 5 *', 'getindex 0 (Ethanol,Methanol,Water)',
+              'getindex 0 [Water,Nope]', 'getindex 1 (Water,Ethanol)', 'getindex 0 Water', 'getindex 0 *'], {'kind': 'corpus-entry-points'}))
     if GEN_ALIASED_MASS_VALUE:
         cases.append(Case([W, 'cix 0', 'mix 0 lg', 'set 0 * v:1,2,4', 'setm 0 * r:0.0', 'get 0 *', 'set 1 l v:1,2,4', 'setm 1 l r:1.1', 'get 1 l',
                            'setm 1 (g,*) r:1.1', 'get 1 (*,*)'], {'kind': 'corpus-mass-alias'}))
